@@ -5,6 +5,8 @@ use crate::engine::*;
 use crate::fix::client::*;
 use crate::fix::server::{rt, settle};
 use crate::props::c03::{OpKind, Outcome, World};
+use parking_lot::Mutex;
+use std::sync::Arc;
 use futures_util::FutureExt;
 use jsonrpsee_core::client::Error;
 use proptest::prelude::*;
@@ -614,12 +616,175 @@ pub fn check(ctx: &mut Ctx) {
 	ctx.extra.insert("fault_enumeration".into(), json!({"cases": n, "exhaustive_over": "fault kinds x positions 0..8 of the fixed history x gate placements x id kind"}));
 	ctx.exhaustive = false;
 	ctx.run_sub(&Faults);
+	ctx.run_sub(&UnderTraffic);
 	corpus_replay(ctx);
 	fuzz_campaign(ctx, "c09_client_rx", 150_000, 512);
 }
 
 pub fn replay(file: &serde_json::Value) -> Option<i32> {
-	replay_with(&Faults, file, "C09")
+	replay_with(&Faults, file, "C09").or_else(|| replay_with(&UnderTraffic, file, "C09"))
+}
+
+// ---------------------------------------------------------------------------------------------
+// the connection fails while front-end callers keep the request queue full
+// ---------------------------------------------------------------------------------------------
+
+#[derive(Clone, Debug, Serialize, Deserialize)]
+pub struct TrafficCase {
+	/// max_concurrent_requests (the length of the queue between callers and the background task)
+	pub queue: u8,
+	pub spammers: u8,
+	/// how long (paused clock) the traffic has been flowing when the fault arrives
+	pub lead_ms: u16,
+	/// 0 receive error, 1 not JSON, 2 a response to nobody, 3 JSON but not JSON-RPC
+	pub fault: u8,
+	/// outstanding at the fault: bit 0 a call, bit 1 a subscribe, bit 2 a batch
+	pub pending: u8,
+	pub id_kind: IdK,
+	pub ws_builder: bool,
+}
+
+pub struct UnderTraffic;
+
+/// writes per caller; every write takes one second of the paused clock, so the callers together keep the queue
+/// non-empty for longer than the client's (default, 60 s) request timeout
+const TRAFFIC_PER_CALLER: usize = 45;
+/// ... and the client has to be done with the failed connection well inside that timeout
+const TRAFFIC_BOUND_S: u64 = 30;
+
+impl SubCheck for UnderTraffic {
+	type Case = TrafficCase;
+	fn name(&self) -> &'static str {
+		"fault-under-traffic"
+	}
+	fn cases(&self, tier: Tier) -> u32 {
+		tier.pick(1_500, 40_000)
+	}
+	fn strategy(&self, _tier: Tier) -> BoxedStrategy<TrafficCase> {
+		(1u8..6, 2u8..5, 0u16..6000, 0u8..4, 0u8..8, prop_oneof![Just(IdK::Number), Just(IdK::String)], any::<bool>())
+			.prop_map(|(queue, spammers, lead_ms, fault, pending, id_kind, ws_builder)| TrafficCase { queue, spammers, lead_ms, fault, pending, id_kind, ws_builder })
+			.boxed()
+	}
+	fn run(&self, case: &TrafficCase, obs: &mut Obs) {
+		use jsonrpsee_core::client::{BatchResponse, ClientT, SubscriptionClientT};
+		use jsonrpsee_core::params::BatchRequestBuilder;
+		use std::sync::atomic::{AtomicUsize, Ordering};
+		use std::time::Duration;
+		let rt = rt();
+		rt.block_on(async {
+			crate::panics::clear_local();
+			let mc = MockClient::new(ClientCfg { id_kind: case.id_kind, max_concurrent_requests: case.queue.max(1) as usize, ws_builder: case.ws_builder, ..ClientCfg::default() });
+			*mc.shared.send_cost_ms.lock() = 1000;
+			let desc = || format!("case={case:?} events={:?}", mc.shared.events.lock());
+			// ---- what is outstanding when the connection fails
+			let mut pend: Vec<(&'static str, tokio::task::JoinHandle<Result<(), String>>)> = vec![];
+			if case.pending & 1 != 0 {
+				let c = mc.client.clone();
+				pend.push(("call", tokio::spawn(async move { c.request::<Value, _>("held_call", jsonrpsee_core::rpc_params![]).await.map(|_| ()).map_err(|e| format!("{e:?}")) })));
+			}
+			if case.pending & 2 != 0 {
+				let c = mc.client.clone();
+				pend.push(("subscribe", tokio::spawn(async move { c.subscribe::<Value, _>("held_sub", jsonrpsee_core::rpc_params![], "held_unsub").await.map(|_| ()).map_err(|e| format!("{e:?}")) })));
+			}
+			if case.pending & 4 != 0 {
+				let c = mc.client.clone();
+				pend.push((
+					"batch",
+					tokio::spawn(async move {
+						let mut b = BatchRequestBuilder::new();
+						b.insert("held_b0", jsonrpsee_core::rpc_params![]).unwrap();
+						b.insert("held_b1", jsonrpsee_core::rpc_params![]).unwrap();
+						let r: Result<BatchResponse<Value>, _> = c.batch_request(b).await;
+						r.map(|_| ()).map_err(|e| format!("{e:?}"))
+					}),
+				));
+			}
+			tokio::time::sleep(Duration::from_millis(1000 * pend.len() as u64 + 500)).await;
+			// ---- callers that write back to back
+			let finished = Arc::new(AtomicUsize::new(0));
+			let bad: Arc<Mutex<Vec<String>>> = Arc::new(Mutex::new(vec![]));
+			for k in 0..case.spammers {
+				let (c, finished, bad) = (mc.client.clone(), finished.clone(), bad.clone());
+				tokio::spawn(async move {
+					for i in 0..TRAFFIC_PER_CALLER {
+						if let Err(e) = c.notification("spam", jsonrpsee_core::rpc_params![k, i]).await {
+							let s = format!("{e:?}");
+							if has_placeholder(&s) || !s.starts_with("RestartNeeded(") {
+								bad.lock().push(s);
+							}
+						}
+					}
+					finished.fetch_add(1, Ordering::SeqCst);
+				});
+			}
+			tokio::time::sleep(Duration::from_millis(case.lead_ms as u64)).await;
+			let written_before = mc.shared.wire.lock().len();
+			// ---- the fault
+			let marker: Option<&str> = match case.fault % 4 {
+				0 => {
+					mc.push_err("injected-receive-failure");
+					Some("injected-receive-failure")
+				}
+				1 => {
+					mc.push_text("{\"jsonrpc\":\"2.0\",\"id\":0,\"result\":1");
+					None
+				}
+				2 => {
+					mc.push_text(json!({"jsonrpc":"2.0","id":"nobody","result":1}).to_string());
+					None
+				}
+				_ => {
+					mc.push_text("{\"jsonrpc\":\"2.0\"}");
+					None
+				}
+			};
+			let t0 = tokio::time::Instant::now();
+			match tokio::time::timeout(Duration::from_secs(TRAFFIC_BOUND_S), mc.client.on_disconnect()).await {
+				Err(_) => obs.fail(
+					"c09/stalled-under-traffic",
+					format!("on_disconnect() has not resolved {TRAFFIC_BOUND_S} s after the connection failed while callers keep writing ({} more messages written since); {}", mc.shared.wire.lock().len() - written_before, desc()),
+				),
+				Ok(e) => {
+					if let Err(why) = judge_failed(&Outcome::Failed(format!("{e:?}")), marker) {
+						obs.fail("c09/wrong-disconnect-cause", format!("{why}; {}", desc()));
+					}
+				}
+			}
+			obs.check(!mc.client.is_connected() || t0.elapsed() >= Duration::from_secs(TRAFFIC_BOUND_S), "c09/still-connected-after-fault", || desc());
+			// what was outstanding is complete by then, with the cause
+			tokio::time::sleep(Duration::from_millis(1)).await;
+			let within_bound = t0.elapsed() < Duration::from_secs(TRAFFIC_BOUND_S);
+			for (what, h) in pend {
+				if h.is_finished() {
+					match h.await {
+						Ok(Err(s)) => {
+							if let Err(why) = judge_failed(&Outcome::Failed(s), marker) {
+								obs.fail("c09/wrong-error-after-disconnect", format!("the outstanding {what}: {why}; {}", desc()));
+							}
+						}
+						Ok(Ok(())) => obs.fail("c09/wrong-error-after-disconnect", format!("the outstanding {what} succeeded; {}", desc())),
+						Err(e) => obs.fail("c09/background-panic", format!("the outstanding {what}: {e}; {}", desc())),
+					}
+				} else if within_bound {
+					obs.fail("c09/pending-after-disconnect", format!("on_disconnect() resolved but the outstanding {what} is still pending; {}", desc()));
+				} else {
+					obs.fail("c09/stalled-under-traffic", format!("the outstanding {what} is still pending {TRAFFIC_BOUND_S} s after the connection failed; {}", desc()));
+				}
+			}
+			// ---- the callers come to an end too, with nothing but the cause
+			settle().await;
+			obs.check(finished.load(Ordering::SeqCst) == case.spammers as usize, "c09/caller-still-pending", || format!("{} of {} callers done; {}", finished.load(Ordering::SeqCst), case.spammers, desc()));
+			let bad = bad.lock().clone();
+			obs.check(bad.is_empty(), "c09/wrong-error-after-disconnect", || format!("notifications failed with {bad:?}; {}", desc()));
+			let panics = crate::panics::take_local();
+			obs.check(panics.is_empty(), "c09/background-panic", || format!("{panics:?}; {}", desc()));
+			obs.nontrivial();
+			obs.class(["traffic:receive-error", "traffic:not-json", "traffic:response-to-nobody", "traffic:not-json-rpc"][case.fault as usize % 4]);
+			if case.pending != 0 {
+				obs.class("traffic:with-outstanding-operations");
+			}
+		});
+	}
 }
 
 #[allow(dead_code)]
